@@ -349,17 +349,27 @@ def _check_cases(cases, shard, jobs, timeout, devs):
     try:
         shards = [cases[i:i + shard] for i in range(0, len(cases), shard)]
 
-        def one(k):
-            path = os.path.join(wd, 's%04d.ndjson' % k)
+        def evaluate(tag, cs):
+            """indices (within cs) of the cases TLC flags; a case on which the specification cannot even be evaluated
+            (unexpected shape of what the library handed back) is flagged too -- found by halving"""
+            path = os.path.join(wd, 's%s.ndjson' % tag)
             with open(path, 'w') as f:
-                for c in shards[k]:
+                for c in cs:
                     f.write(json.dumps(c, separators=(',', ':')) + '\n')
-            rc, out = tlc(os.path.join(wd, 't%04d' % k), 'Cases.tla', 'Cases.cfg', timeout, env={'CASES': path, 'VERIF_DEVS': devs}, workers=1,
+            rc, out = tlc(os.path.join(wd, 't%s' % tag), 'Cases.tla', 'Cases.cfg', timeout, env={'CASES': path, 'VERIF_DEVS': devs}, workers=1,
                           xmx='3g')
             m = re.search(r'"CASES", (\d+)', out)
-            if not m or int(m.group(1)) != len(shards[k]) or 'No error has been found' not in out:
-                raise Broken('Cases.tla failed on shard %d:\n%s' % (k, out[-3000:]))
-            return [k * shard + int(x) - 1 for x in re.findall(r'"BADCASE", (\d+)', out)]
+            if m and int(m.group(1)) == len(cs) and 'No error has been found' in out:
+                return [int(x) - 1 for x in re.findall(r'"BADCASE", (\d+)', out)]
+            if ('The error occurred when TLC was evaluating' in out or 'Attempted to ' in out) and len(tag) < 24:
+                if len(cs) == 1:
+                    return [0]
+                h = len(cs) // 2
+                return evaluate(tag + 'a', cs[:h]) + [h + i for i in evaluate(tag + 'b', cs[h:])]
+            raise Broken('Cases.tla failed on shard %s:\n%s' % (tag, out[-3000:]))
+
+        def one(k):
+            return [k * shard + i for i in evaluate('%04d' % k, shards[k])]
         with ThreadPoolExecutor(max_workers=jobs) as ex:
             for r in ex.map(one, range(len(shards))):
                 bad += r
